@@ -114,6 +114,8 @@ class Ctx:
                         print("    | %s" % w)
             print("VIOLATION property=%s replay=%s" % (self.prop, rp))
             rc = 1
+        if os.environ.get("VERIF_SUMMARY"):
+            json.dump({"new": [v["key"] for v in new], "known": [v["key"] for v, _ in kfs], "instances": len(self.instances)}, open(os.environ["VERIF_SUMMARY"], "w"))
         self._write_evidence(len(new), [v for v, _ in kfs])
         return rc
 
